@@ -7,7 +7,8 @@ of the property on the implementation against a dict-of-int oracle:
 * selected UTxOs are objects of the pool, pairwise distinct;
 * request (+ max fee when asked) <= sum of the selected, in ADA and in every asset;
 * change == sum of the selected - request;
-* len(selected) <= max_input_count;
+* len(selected) <= max_input_count for every limit >= 0 given, the inputs added by the min-change top-up included
+  (`0` is a limit: no input may be selected; only `None` means "no limit");
 * the pool is unchanged: the list, the identity of every entry and a structural image of everything its bytes are
   computed from on every case; the CBOR bytes themselves (`utxo.to_cbor()`, 3 ms per entry under typeguard) for pools
   of size <= 2 and every 8th case (every 4th in the thorough tier);
@@ -38,7 +39,6 @@ from pycardano.exception import (InputUTxODepletedException, InsufficientUTxOBal
 from ref import cbor_ref as R
 from vlib import values as V
 
-KF_LIMIT = "KF-C14-limit"       # limit exceeded: top-up called with limit 0 (= no limit) / _improve appends at len == limit
 KF_INDEX = "KF-C14-index"       # injected index == len(remaining): IndexError instead of a selection error
 
 POOL_ADDR = Address.from_primitive("addr_test1vr2p8st5t5cxqglyjky7vk98k7jtfhdpvhl4e97cezuhn0cqcexl7")
@@ -152,7 +152,7 @@ class LFProbe(LargestFirstSelector):
 class RIProbe(RandomImproveMultiAsset):
     def __init__(self, gen=None):
         super().__init__(gen)
-        self.depth, self.calls, self.lists, self.imp_depth, self.imp_log, self.draw_lens = -1, [], {}, 0, [], []
+        self.depth, self.calls, self.lists, self.draw_lens = -1, [], {}, []
 
     def select(self, utxos, outputs, context, max_input_count=None, include_max_fee=True, respect_min_utxo=True):
         self.depth += 1
@@ -175,27 +175,7 @@ class RIProbe(RandomImproveMultiAsset):
 
     def _improve(self, selected, selected_amount, remaining, ideal, upper_bound, max_input_count=None):
         self.lists.setdefault(self.depth, selected)
-        self.imp_log.append((self.imp_depth == 0, len(selected), max_input_count))   # (new chain, len at entry, limit)
-        self.imp_depth += 1
-        try:
-            return super()._improve(selected, selected_amount, remaining, ideal, upper_bound, max_input_count)
-        finally:
-            self.imp_depth -= 1
-
-    def appended_at_limit(self):
-        """number of `_improve` activations that appended although len(selected) == max_input_count at entry"""
-        n = 0
-        for (c0, l0, m0), (c1, l1, _) in zip(self.imp_log, self.imp_log[1:]):
-            if not c1 and l1 == l0 + 1 and m0 is not None and l0 == m0:
-                n += 1
-        return n
-
-    def appended_over_limit(self):
-        n = 0
-        for (c0, l0, m0), (c1, l1, _) in zip(self.imp_log, self.imp_log[1:]):
-            if not c1 and l1 == l0 + 1 and m0 is not None and l0 > m0:
-                n += 1
-        return n
+        return super()._improve(selected, selected_amount, remaining, ideal, upper_bound, max_input_count)
 
 
 def run_impl(case, probe=False, full_snap=False):
@@ -297,7 +277,8 @@ def o_min_change(cpb, change):
 
 
 def lf_reference(pool, req, limit, respect_min, cpb):
-    """largest-first in oracle terms (component-wise cover on integers); limit=None: unbounded.
+    """largest-first in oracle terms (component-wise cover on integers); limit=None: unbounded, any integer
+    (0 included) is a limit; the top-up gets the remaining budget.
     returns dict(status, n1, n, topup)"""
     avail = sorted(range(len(pool)), key=lambda i: pool[i][0])          # stable ascending; taken from the end
 
@@ -307,7 +288,7 @@ def lf_reference(pool, req, limit, respect_min, cpb):
             if not avail:
                 return "insufficient", sel
             sel.append(avail.pop())
-            if lim and len(sel) > lim:
+            if lim is not None and len(sel) > lim:
                 return "maxInputs", sel
         return "ok", sel
     st, sel = phase(avail, req, limit)
@@ -320,7 +301,7 @@ def lf_reference(pool, req, limit, respect_min, cpb):
     coin = change[0]
     if coin < mc:
         out["topup"] = True
-        lim2 = (limit - len(sel)) if limit else None
+        lim2 = (limit - len(sel)) if limit is not None else None
         st2, sel2 = phase(avail, (mc - coin, {}), lim2)
         out["status"], out["n"] = st2, len(sel) + len(sel2)
     return out
@@ -431,24 +412,14 @@ def check_select(ctx, case):
                 ctx.violation("change is not (sum of selected) - request", case,
                               {"coin": exp_change[0], "assets": {f"{p}.{n}": q for (p, n), q in exp_change[1].items()}},
                               res["change"])
-            if limit is not None and limit > 0:
+            if limit is not None and limit >= 0:
+                # judged strictly for every limit given, 0 included ("no input may be selected"); no tolerance
+                ctx.count("limit:zero" if limit == 0 else "limit:positive")
                 if len(refs) == limit:
                     ctx.count("limit:reached-exactly")
                 if len(refs) > limit:
-                    fid = None
-                    pr = probed()["probe"]
-                    nested0 = [c for c in pr.calls if c["depth"] == 1 and c["limit"] == 0 and c["returned"]]
-                    if nested0 and len(refs) == limit + nested0[0]["returned"]:
-                        fid = KF_LIMIT      # first phase ended exactly at the limit, the top-up ran with limit 0
-                        ctx.count("limit:exceeded-by-topup")
-                    elif sname == "ri" and pr.appended_over_limit() == 0 and not nested0 \
-                            and len(refs) - limit == pr.appended_at_limit() == 1:
-                        fid = KF_LIMIT      # `_improve` appended at len == limit (tested before appending)
-                        ctx.count("limit:exceeded-by-improve")
                     ctx.violation(f"{len(refs)} inputs returned for max_input_count={limit}", case,
-                                  f"at most {limit} inputs or MaxInputCountExceededException", res, finding=fid)
-            elif limit is not None:
-                ctx.count("limit:zero-not-judged")
+                                  f"at most {limit} inputs or MaxInputCountExceededException", res)
     else:
         kind = res["err"]
         if kind == "crash":
@@ -471,7 +442,7 @@ def check_select(ctx, case):
                                   {"pool_coin": total_pool[0], "request_coin": req[0], "min_change": ref["min_change"]}, res)
             if kind == "maxInputs":
                 ref = lf_reference(pool_c, req, None, case["min"], case["cpb"])
-                if limit is None or limit <= 0 or (ref["status"] == "ok" and ref["n"] <= limit):
+                if limit is None or (ref["status"] == "ok" and ref["n"] <= limit):
                     ctx.violation("largest-first raises MaxInputCountExceededException although the largest "
                                   f"{ref['n']} inputs suffice for max_input_count={limit}", case,
                                   {"inputs_needed": ref["n"]}, res)
@@ -498,9 +469,14 @@ def check_select(ctx, case):
             ref = lf_reference(pool_c, req, limit, True, case["cpb"])
             if ref["topup"]:
                 ctx.count("topup:taken")
+                if limit is not None and ref["n1"] == limit:
+                    ctx.count("topup:remaining-budget-0")      # first phase ended exactly at the limit
         elif "err" not in res or res["err"] != "crash":
-            if any(c["depth"] == 1 for c in probed()["probe"].calls):
+            nested = [c for c in probed()["probe"].calls if c["depth"] == 1]
+            if nested:
                 ctx.count("topup:taken")
+                if nested[0]["limit"] == 0:
+                    ctx.count("topup:remaining-budget-0")
     ctx.case(case)
     return res, info
 
@@ -596,7 +572,7 @@ def rand_request(rng, pool_amounts, params, fee_on):
 
 
 def rand_flags(rng):
-    return (rng.choice([None, None, 1, 2, 3, 4]), rng.random() < 0.5, rng.random() < 0.6)
+    return (rng.choice([None, None, None, 0, 1, 1, 2, 2, 3, 4]), rng.random() < 0.5, rng.random() < 0.6)
 
 
 # ---------------------------------------------------------------------------------------------------------------
@@ -625,13 +601,33 @@ def explore_streams(ctx, case, n, max_depth, node_budget):
 def corpus():
     p0 = PARAM_SETS[0]
     c = []
-    # KF-C14-limit, top-up mechanism: limit 1, first phase takes exactly one input, change below the minimum
+    # the limit and the min-change top-up (former KF-C14-limit): limit 1, the first phase takes exactly one input, its
+    # change is below the minimum: the top-up runs with the remaining budget 0 and must refuse the second input
+    # (MaxInputCountExceededException; the unrepaired code returned 2 inputs); limit 2: the 2 inputs are returned
     pool = mk_pool([vj(3_000_000), vj(2_000_000)])
     c.append(base_case("lf", pool, [vj(2_900_000)], p0, 4310, 1, False, True))
     c.append(base_case("ri", pool, [vj(2_900_000)], p0, 4310, 1, False, True, stream=[0, 0, 0, 0]))
-    # KF-C14-limit, _improve mechanism: limit 1, request 1 ADA, ideal 2 ADA: the improvement step appends a second input
+    c.append(base_case("lf", pool, [vj(2_900_000)], p0, 4310, 2, False, True))
+    c.append(base_case("ri", pool, [vj(2_900_000)], p0, 4310, 2, False, True, stream=[0, 0, 0, 0]))
+    # the top-up needs two more inputs: refused for the limits 1 and 2 (3 inputs for limit 1 on the unrepaired code)
+    pool = mk_pool([vj(3_000_000), vj(500_000), vj(500_000)])
+    for lim in (1, 2, 3):
+        c.append(base_case("lf", pool, [vj(2_900_000)], p0, 4310, lim, False, True))
+        c.append(base_case("ri", pool, [vj(2_900_000)], p0, 4310, lim, False, True, stream=[0, 0, 0, 0, 0]))
+    # the limit and _improve (former KF-C14-limit): limit 1, request 1 ADA, ideal 2 ADA: the improvement step must return
+    # without appending (1 input; the unrepaired code tested `>` before appending and returned 2); limit 2: 2 inputs
     pool = mk_pool([vj(1_000_000), vj(1_000_000), vj(1_000_000)])
     c.append(base_case("ri", pool, [vj(1_000_000)], p0, 0, 1, False, False, stream=[0, 0, 0]))
+    c.append(base_case("ri", pool, [vj(1_000_000)], p0, 0, 2, False, False, stream=[0, 0, 0]))
+    # max_input_count=0 is a limit ("no input may be selected"), not "no limit": empty request -> empty selection;
+    # a request that needs an input -> MaxInputCountExceededException (empty pool: insufficient / depleted come first);
+    # empty request in min-change mode -> the top-up is refused
+    for sel, st in (("lf", None), ("ri", [0, 0, 0])):
+        c.append(base_case(sel, pool, [], p0, 0, 0, False, False, stream=st))
+        c.append(base_case(sel, pool, [vj(1_000_000)], p0, 0, 0, False, False, stream=st))
+        c.append(base_case(sel, pool, [vj(2_500_000)], p0, 4310, 0, True, True, stream=st))
+        c.append(base_case(sel, [], [vj(1_000_000)], p0, 0, 0, False, False, stream=st))
+        c.append(base_case(sel, pool, [], p0, 4310, 0, False, True, stream=st))
     # KF-C14-index: injected index == len(remaining)
     c.append(base_case("ri", pool, [vj(1_000_000)], p0, 0, None, False, False, stream=[3]))
     c.append(base_case("ri", pool, [vj(1_000_000)], p0, 0, None, False, False, stream=[4]))
@@ -647,7 +643,7 @@ def run(ctx):
                 "pools of 0..10 UTxOs (coins 0..2^32+1 with many ties, up to 3 of 4 assets, quantities to 2^63); "
                 "requests derived from the pool: none, exact total, total+1, first entry, token exact/+1/absent, "
                 "3 outputs with up to 4 assets and a zero quantity, change exactly at / one below the minimum, "
-                "plus random requests of 0..3 outputs with 0..4 assets; limits None,0(T2 only),1..4; fee on/off over 4 "
+                "plus random requests of 0..3 outputs with 0..4 assets; limits None,0..4 (0 = no input may be selected); fee on/off over 4 "
                 "exact-rational parameter sets; min-change on/off with coins_per_utxo_byte in {0,1000,4310,34482}; "
                 "random-improve: the whole tree of index choices to depth 6 (indices 0..len+1) on pools of size <= 3, "
                 "random index streams (25% with out-of-range entries) and the random-module path seeded from ctx.rng; "
@@ -669,7 +665,7 @@ def run(ctx):
     # ---- (B) exhaustive pools of size <= 4
     combos_lf = ctx.budget(2, 6)
     combos_ri = ctx.budget(1, 4)
-    all_flags = [(l, f, m) for l in (None, 1, 2, 3, 4) for f in (False, True) for m in (False, True)]
+    all_flags = [(l, f, m) for l in (None, 0, 1, 2, 3, 4) for f in (False, True) for m in (False, True)]
     for size in range(0, 5):
         for seq in itertools.product(range(3), repeat=size):
             amounts = [ALPHABET[i] for i in seq]
@@ -715,8 +711,6 @@ def run(ctx):
         params = rng.choice(PARAM_SETS)
         cpb = rng.choice(CPBS)
         l, f, m = rand_flags(rng)
-        if rng.random() < 0.03:
-            l = 0
         outs = rand_request(rng, amounts, params, f) if rng.random() < 0.7 else rng.choice(derived_requests(amounts, params, cpb, f))
         pool = mk_pool(amounts)
         sel = rng.choice(["lf", "ri", "ri"])
